@@ -214,6 +214,10 @@ type recStore struct {
 	mem   *memory.Storage
 	delay time.Duration
 
+	failAt    int // the failAt-th receive of a non-file blob fails (0 = never)
+	failDelay time.Duration
+	failedRef string
+
 	mu        sync.Mutex
 	received  int
 	fileSeen  int
@@ -252,9 +256,19 @@ func (s *recStore) ReceiveBlob(ctx context.Context, br blob.Ref, src io.Reader) 
 	}
 	s.mu.Lock()
 	s.received++
+	fail := !isFile && s.failAt > 0 && s.received == s.failAt
+	if fail {
+		s.failedRef = br.String()
+	}
 	s.mu.Unlock()
+	if fail {
+		time.Sleep(s.failDelay)
+		return blob.SizedRef{}, errRefused
+	}
 	return s.mem.ReceiveBlob(ctx, br, bytes.NewReader(b))
 }
+
+var errRefused = errors.New("harness store: this blob is refused (injected failure)")
 
 // missingFrom lists refs reachable from n that are not in the store right now.
 func (s *recStore) missingFrom(n *jnode) []string {
@@ -402,6 +416,11 @@ type writerCase struct {
 	EOFWithDat bool   `json:"eof_with_data"`
 	DelayUS    int    `json:"store_delay_us"`
 	FileName   string `json:"file_name"`
+	// second pass over a store that refuses one data blob (0 = no second pass): the FailPick-th receive
+	// counted from the end (FailFromEnd) or from the start fails, FailDelayMS after it was asked to store
+	FailPick    int  `json:"fail_pick,omitempty"`
+	FailFromEnd bool `json:"fail_from_end,omitempty"`
+	FailDelayMS int  `json:"fail_delay_ms,omitempty"`
 }
 
 var lengthBases = []int{0, 1, 64 << 10, 256 << 10, 320 << 10, 1 << 20, 1<<20 + 256<<10, 2 << 20, 2<<20 + 256<<10, 3 << 20}
@@ -465,6 +484,11 @@ func genWriterCase(t *rapid.T) writerCase {
 	}
 	c.DelayUS = rapid.SampledFrom([]int{0, 100, 1000}).Draw(t, "storeDelayUS")
 	c.FileName = rapid.SampledFrom([]string{"", "f.bin", "übung.txt"}).Draw(t, "fileName")
+	if rapid.IntRange(0, 2).Draw(t, "refusal") == 0 {
+		c.FailPick = rapid.IntRange(1, 12).Draw(t, "failPick")
+		c.FailFromEnd = rapid.IntRange(0, 2).Draw(t, "failFromEnd") > 0
+		c.FailDelayMS = rapid.SampledFrom([]int{0, 1, 5, 30}).Draw(t, "failDelayMS")
+	}
 	return c
 }
 
@@ -602,7 +626,48 @@ func checkWriter(c *writerCase) (violation string, stats map[string]int) {
 			return v, nil
 		}
 	}
-	return "", map[string]int{"leaves": len(lv), "nodes": len(w.nodes), "maxBlob": maxSeen}
+	stats = map[string]int{"leaves": len(lv), "nodes": len(w.nodes), "maxBlob": maxSeen}
+	if c.FailPick > 0 {
+		if v := checkWriterRefusal(c, data, st.received, stats); v != "" {
+			return v, stats
+		}
+	}
+	return "", stats
+}
+
+// checkWriterRefusal writes the same stream into a store that refuses one blob: the writer has to report
+// an error, or - if the refused blob got stored by another receive of the same bytes - return a file whose
+// every referenced blob is stored and which reads back exactly. It must never return a ref to a file with
+// a missing chunk.
+func checkWriterRefusal(c *writerCase, data []byte, receives int, stats map[string]int) string {
+	n := receives - 1 // the file schema blob is the last receive and is not refused
+	if n <= 0 {
+		return ""
+	}
+	k := 1 + (c.FailPick-1)%n
+	if c.FailFromEnd {
+		k = n - (c.FailPick-1)%min(n, 3)
+	}
+	st := &recStore{mem: new(memory.Storage), delay: time.Duration(c.DelayUS) * time.Microsecond, failAt: k, failDelay: time.Duration(c.FailDelayMS) * time.Millisecond}
+	ref, err := schema.WriteFileFromReader(ctxbg, st, c.FileName, c.reader(data))
+	stats["refusedReceive"] = k
+	if err != nil {
+		stats["refusalReported"] = 1
+		return ""
+	}
+	if st.failedRef == "" {
+		return "" // fewer receives this time (uploads are concurrent): nothing was refused
+	}
+	what := fmt.Sprintf("the store refused receive #%d of %d (blob %s, refusal reported after %d ms) but WriteFileFromReader returned %v without error", k, receives, st.failedRef, c.FailDelayMS, ref)
+	w, root, lerr := st.loadWorld(ref)
+	if lerr != nil {
+		return what + ": " + lerr.Error()
+	}
+	if got := w.denote(root, 0, uint64(len(data))); root.size() != uint64(len(data)) || !bytes.Equal(got, data) {
+		return what + ", and the written tree does not denote the content"
+	}
+	stats["refusedBlobStoredByAnotherReceive"] = 1
+	return ""
 }
 
 func firstDiff(a, b []byte) int {
@@ -632,6 +697,15 @@ func TestWriterRoundTrip(t *testing.T) {
 			}
 			if stats["maxBlob"] == maxChunk {
 				evid.R.Label("writer/hit-1MiB-cap")
+			}
+			if stats["refusedReceive"] > 0 {
+				evid.R.Label("writer/second-pass-with-one-refused-blob")
+				if stats["refusalReported"] > 0 {
+					evid.R.Label("writer/refusal-reported-as-error")
+				}
+				if stats["refusedBlobStoredByAnotherReceive"] > 0 {
+					evid.R.Label("writer/refused-blob-stored-by-another-receive")
+				}
 			}
 		}
 		if evid.R.WantSample(nt) {
